@@ -1,5 +1,5 @@
 (* C01 geometry, part 4: separated balls neither share a cell nor touch through a face.
-   Separation hypothesis of the simple version (no square roots): there is ONE non-periodic axis a
+   Separation condition of the simple version (no square roots): there is ONE non-periodic axis a
    (number k) along which the centres are at least  r1 + r2 + h_a  apart:
         r1 + r2 + adisc a <= | c1_k - c2_k |.
    (The other axes may be periodic or not; only the k-th term of the squared distance is used.)
